@@ -193,9 +193,54 @@ def run_model(cases, timeout=1200):
             lines.pop()
         if len(lines) != len(cases):
             raise RuntimeError("model printed %d lines for %d cases" % (len(lines), len(cases)))
-        return [unsx(l) for l in lines]
+        res = [unsx(l) for l in lines]
+        _remember_for_crosscheck(cases, res)
+        return res
     finally:
         os.unlink(path)
+
+
+# a small reservoir of (case, OCaml result) pairs, re-evaluated inside coqc with vm_compute at the end of the
+# run: the extraction and the driver are cross-checked against the kernel's own evaluator on every check
+_XS = {"seen": 0, "keep": [], "rng": random.Random(20261001)}
+
+
+def _remember_for_crosscheck(cases, res, cap=10):
+    for c, r in zip(cases, res):
+        if _sx_size(c[1]) > 400:
+            continue
+        _XS["seen"] += 1
+        if len(_XS["keep"]) < cap:
+            _XS["keep"].append((c, r))
+        else:
+            j = _XS["rng"].randrange(_XS["seen"])
+            if j < cap:
+                _XS["keep"][j] = (c, r)
+
+
+def _sx_size(v, limit=401):
+    n, stack = 0, [v]
+    while stack and n < limit:
+        x = stack.pop()
+        n += 1
+        if isinstance(x, (list, tuple)):
+            stack.extend(x)
+    return n
+
+
+def kernel_crosscheck():
+    """returns dict(cases, equal, mismatch)"""
+    keep = list(_XS["keep"])
+    if not keep:
+        return {"cases": 0, "equal": True}
+    try:
+        got = coq_eval_sample([c for c, _ in keep], timeout=300)
+    except Exception as e:
+        return {"cases": len(keep), "equal": False, "mismatch": "coqc evaluation failed: " + exc_info(e)}
+    for (c, r), g in zip(keep, got):
+        if r != g:
+            return {"cases": len(keep), "equal": False, "mismatch": {"case": [c[0], c[1]], "ocaml": r, "coq": g}}
+    return {"cases": len(keep), "equal": True}
 
 
 def run_model_sharded(cases, shards=16, timeout=1800):
@@ -358,6 +403,13 @@ class Check:
         return sum(1 for v in self.violations if v[2])
 
     def finish(self):
+        if self.coq and self.coq.get("ok") and os.environ.get("VERIF_NO_XCHECK") != "1":
+            xc = kernel_crosscheck()
+            self.extra["extraction_crosscheck_vm_compute"] = {"cases": xc["cases"], "equal": xc["equal"]}
+            if not xc["equal"]:
+                self.violation("the extracted model (OCaml) and Coq's vm_compute disagree: %r" % (xc.get("mismatch"),),
+                               {"correspondence": "extraction / ocaml driver vs coqc vm_compute", "detail": xc.get("mismatch")},
+                               found_input=False)
         wall = time.time() - self.t0
         os.makedirs(EVIDENCE, exist_ok=True)
         coq = self.coq or {"ok": False, "obligations": 0, "discharged": 0, "assumptions": [],
